@@ -455,9 +455,17 @@ func isoScript(t []string) (string, bool) {
 	if pre, ok := nodePre[t[1]]; ok {
 		b.WriteString(fmt.Sprintf(pre.pre, []interface{}{p1, p2}[:pre.nargs]...))
 	}
-	fmt.Fprintf(&b, "stream\n  |from()\n  |groupBy(%s)", groupByArgs(false, dims))
-	if t[4] == "1" {
-		b.WriteString("\n    .byMeasurement()")
+	if t[4] == "2" {
+		// MIXED by-name flags on one edge: measurement cpu is grouped by measurement, measurement m is not; the union
+		// hands both to NODE (points of other measurements are filtered out by the from() nodes)
+		fmt.Fprintf(&b, "var a = stream\n  |from()\n    .measurement('cpu')\n    .groupBy(%s)\n    .groupByMeasurement()\n", groupByArgs(false, dims))
+		fmt.Fprintf(&b, "var b = stream\n  |from()\n    .measurement('m')\n    .groupBy(%s)\n", groupByArgs(false, dims))
+		b.WriteString("a\n  |union(b)")
+	} else {
+		fmt.Fprintf(&b, "stream\n  |from()\n  |groupBy(%s)", groupByArgs(false, dims))
+		if t[4] == "1" {
+			b.WriteString("\n    .byMeasurement()")
+		}
 	}
 	b.WriteString("\n  " + fmt.Sprintf(def.script, args...))
 	if def.batch {
@@ -532,7 +540,7 @@ func execIso(lines []string) []string {
 	if !ok {
 		return append(out, "bad")
 	}
-	byName := cfg[4] == "1"
+	byNameOf := func(name string) bool { return cfg[4] == "1" || (cfg[4] == "2" && name == "cpu") }
 	dims := unescList(cfg[5])
 	sort.Strings(dims)
 	out = append(out, "full => "+renderRun(script, pts))
@@ -540,7 +548,7 @@ func execIso(lines []string) []string {
 	var keys []string
 	byKey := map[string][]pt{}
 	for _, p := range pts {
-		k := gkey(byName, p.name, dims, p.tags)
+		k := gkey(byNameOf(p.name), p.name, dims, p.tags)
 		if _, ok := byKey[k]; !ok {
 			keys = append(keys, k)
 		}
